@@ -112,6 +112,8 @@ def region (t : Tree) : String :=
 
 /-- the constructor's own region: parameter-name collisions are inside (C02_value_at_path_general) -/
 def regionG (t : Tree) : String :=
-  if !wfLevels t || !wfFieldNames t || skipWithDef t then "Out" else "WF"
+  if !wfLevels t || !wfFieldNames t then "Out"
+  else if skipWithDef t then "F_skipWithDef"   -- a left-out field that carries `def=`: the code drops the default
+  else "WF"
 
 end ShootVerif.Ctor
